@@ -47,9 +47,6 @@ def mulM (m : Mode) (a b : Nat) : Out Nat :=
     | .debug => .panic "attempt to multiply with overflow"
     | .release => .ok ((a * b) % 2 ^ 64)
 
-/-- `x as i8` of an integer (two's complement reduction to −128..127) -/
-def wrapI8 (i : Int) : Int := (i + 128) % 256 - 128
-
 /-- `x as i64` of an integer -/
 def wrapI64 (i : Int) : Int := (i + 2 ^ 63) % 2 ^ 64 - 2 ^ 63
 
@@ -199,7 +196,7 @@ def linePart (e : Enc) (la : Int) : Nat × Bool × List WInstr :=
   -- `(line_advance as u64).wrapping_sub(line_base)`
   let specialLine := (Leb.ofI64 la + 2 ^ 64 - Leb.ofI64 e.lineBase) % 2 ^ 64
   if la ≠ 0 then
-    if specialLine < e.lineRange then (opcodeBase + specialLine, true, [])
+    if specialLine < e.lineRange ∧ opcodeBase + specialLine ≤ 255 then (opcodeBase + specialLine, true, [])
     else (specialDefault e, false, [.advanceLine la])
   else (specialDefault e, false, [])
 
@@ -402,15 +399,12 @@ def addFile (p : Prog) (name : LineStr) (dir : Nat) (info : Option FileInfo) : O
       .ok ({ p with files := p.files ++ [{ name, dir, info := info.getD FileInfo.default }] },
            p.files.length)
 
-/-- the two `assert!`s of `LineProgram::new`. `line_range as i8` reinterprets the byte, and the
-`i8` sum panics on overflow in debug builds and wraps in release builds. -/
-def newCheck (m : Mode) (lineBase : Int) (lineRange : Nat) : Out Unit :=
+/-- the two `assert!`s of `LineProgram::new` (as repaired: the sum is taken in `i16`, so it is the
+mathematical sum in both build modes) -/
+def newCheck (_m : Mode) (lineBase : Int) (lineRange : Nat) : Out Unit :=
   if ¬ lineBase ≤ 0 then .panic "assertion failed: line_encoding.line_base <= 0"
-  else
-    let sum := lineBase + wrapI8 lineRange
-    if m = .debug ∧ ¬ (-128 ≤ sum ∧ sum ≤ 127) then .panic "attempt to add with overflow"
-    else if wrapI8 sum > 0 then .ok ()
-    else .panic "assertion failed: line_encoding.line_base + line_encoding.line_range as i8 > 0"
+  else if lineBase + (lineRange : Int) > 0 then .ok ()
+  else .panic "assertion failed: i16::from(line_encoding.line_base) + i16::from(line_encoding.line_range) > 0"
 
 /-- `LineProgram::new` -/
 def Prog.new (m : Mode) (format : Format) (addrSize : Nat) (e : Enc) (workingDir : LineStr)
